@@ -41,7 +41,7 @@
 (*      retrievable from that server even if the process is killed         *)
 (*      immediately afterwards and a new process is started"               *)
 (*                      acked => Get = "complete" (GetOk), before and      *)
-(*                      after Restart; acked => the index lists it         *)
+(*                      after Restart                                      *)
 (*  (b) "If the process dies, the client disconnects or the write fails at *)
 (*      any earlier instant, a later GET returns either an error status or *)
 (*      the complete correct block, never partial or mixed data"           *)
@@ -50,8 +50,7 @@
 (*                      IndexOk: no entry is "other"; the same at every    *)
 (*                      instant of the write (IndexDuringOk)               *)
 (*  (d) "temporary files left behind are never visible as blocks"          *)
-(*                      IndexOk (a temp file listed is "other");           *)
-(*                      DirScanOk: ~tmpblk                                 *)
+(*                      IndexOk (a temp file listed is "other"), GetOk     *)
 (* Silent, hence unconstrained: the status of a failed PUT; whether a PUT  *)
 (* that was not acknowledged left the complete block behind; whether temp  *)
 (* files are left behind at all.                                           *)
@@ -82,13 +81,17 @@ RestartEff == UNCHANGED pvars
 GetOk(class) == /\ class \in {"complete", "error"}                 \* (b)
                 /\ acked => class = "complete"                     \* (a)
 
-IndexOk(entries) == /\ \A i \in DOMAIN entries : entries[i] \in {"complete", "pre"}          \* (c) (d)
-                    /\ acked => \E i \in DOMAIN entries : entries[i] = "complete"            \* (a)
+(* (that the index LISTS an acknowledged block is not in the statement - only that what it lists is  *)
+(*  complete; checks/C02.py reports a missing entry as drift)                                        *)
+IndexOk(entries) == \A i \in DOMAIN entries : entries[i] \in {"complete", "pre"}             \* (c) (d)
 
 IndexDuringOk(entries) == \A i \in DOMAIN entries : entries[i] \in {"complete", "pre"}          \* (c) (d)
 
-DirScanOk(blk, tmpblk) == /\ ~tmpblk                                \* (d)
-                          /\ acked => blk = "complete"              \* (a)
+(* The directory scan depends on today's on-disk layout (<root>/<hash[:3]>/<hash>, 32 hex digits); what  *)
+(* the statement says about visibility is judged through Get and Index.  The scan is recorded, and      *)
+(* checks/C02.py reports "a temp file has a block-like name" / "acknowledged but no complete file at     *)
+(* the block path" as drift.                                                                             *)
+DirScanOk(blk, tmpblk) == TRUE
 
 ObserveEff == UNCHANGED pvars
 
